@@ -2094,6 +2094,74 @@ def oracle_layout(name, rng_seed):
     return out
 
 
+def _seq(r):
+    return r if isinstance(r, (list, tuple)) else [r]
+
+
+def used_vs_fresh(only=None):
+    """histories on objects that have no generated memo table: the same request on a USED object
+    and on a fresh equal one (forced cases).  -> list of (key, payload)"""
+    import oqupy
+    from oqupy import operators as op
+    bad = []
+    # (a) TwoTimeBathCorrelations: every argument of correlation()/occupation() matters on every call
+    sysm, bath, pt, _ = ttbc_fixture()
+
+    def tt():
+        return oqupy.bath_dynamics.TwoTimeBathCorrelations(sysm, bath, pt, initial_state=op.spin_dm("z+"))
+    calls = [("correlation", dict(freq_1=1.0, time_1=0.2, dw=(1.0, 1.0))),
+             ("correlation", dict(freq_1=1.0, time_1=0.2, dw=(0.1, 0.2))),
+             ("correlation", dict(freq_1=1.0, time_1=0.2, dw=(0.1, 0.2), dagg=(1, 0))),
+             ("correlation", dict(freq_1=1.0, time_1=0.2, freq_2=1.5, time_2=0.3, dw=(0.3, 0.2))),
+             ("correlation", dict(freq_1=1.0, time_1=0.2, dw=(0.1, 0.2), interaction_picture=True)),
+             ("correlation", dict(freq_1=1.0, time_1=0.2, dw=(0.1, 0.2), change_only=True)),
+             ("occupation", dict(freq=1.0, dw=1.0)), ("occupation", dict(freq=1.0, dw=0.25)),
+             ("occupation", dict(freq=1.0, dw=0.25, change_only=True)),
+             ("correlation", dict(freq_1=1.0, time_1=0.2, dw=(1.0, 1.0)))]
+    key = "used-vs-fresh:TwoTimeBathCorrelations"
+    if only in (None, key):
+        used = tt()
+        for i, (m, kw) in enumerate(calls):
+            try:
+                got = as_list(_seq(getattr(used, m)(progress_type="silent", **kw)))
+                want = as_list(_seq(getattr(tt(), m)(progress_type="silent", **kw)))
+            except Exception as e:      # noqa: BLE001
+                bad.append((key, {"kind": "used-vs-fresh", "key": key, "call": [m, repr(kw)],
+                                  "exception": exc_kind(e)}))
+                break
+            if not results_close(got, want):
+                bad.append((key, {"kind": "used-vs-fresh", "key": key,
+                                  "history": [[c[0], repr(c[1])] for c in calls[:i + 1]],
+                                  "used_object": repr(got)[:300], "fresh_object": repr(want)[:300],
+                                  "how": "the last call of the history on ONE TwoTimeBathCorrelations "
+                                         "object vs the same call on a fresh equal object"}))
+                break
+    # (b) two DIFFERENT systems that are close on an absolute scale, used one after the other
+    key = "used-vs-fresh:System objects with nearly equal (tiny) Hamiltonians"
+    if only in (None, key):
+        ha, hb = 2e-9 * op.sigma("z"), 5e-9 * op.sigma("x")
+        for cls_name, mk in (("System", lambda h: oqupy.System(h)),
+                             ("System+Lindblad", lambda h: oqupy.System(h, gammas=[1e-9],
+                                                                         lindblad_operators=[op.sigma("-")]))):
+            a, b = mk(ha), mk(hb)
+            la = np.array(a.liouvillian())
+            lb = np.array(b.liouvillian())
+            want = -1j * op.commutator(hb)
+            if cls_name != "System":
+                sm = op.sigma("-")
+                want = want + 1e-9 * (op.left_right_super(sm, sm.conj().T)
+                                      - 0.5 * op.acommutator(sm.conj().T @ sm))
+            if not np.allclose(lb, want, rtol=1e-12, atol=0.0):
+                bad.append((key, {"kind": "used-vs-fresh", "key": key, "class": cls_name,
+                                  "how": "A = System(2e-9 sigma_z).liouvillian() first, then "
+                                         "B = System(5e-9 sigma_x).liouvillian(): B's answer is not "
+                                         "-i[H_B, .] (+ dissipator)",
+                                  "equals_A": bool(np.array_equal(la, lb)),
+                                  "max_abs_diff": float(np.abs(lb - want).max())}))
+                break
+    return bad
+
+
 def replay_case(payload):
     """re-run a stored failing input; -> description if it still fails, else None"""
     kind = payload.get("kind")
@@ -2114,6 +2182,9 @@ def replay_case(payload):
         return replay_tebd(payload["history"])[0]
     if kind == "bath-tempo":
         return oracle_bath_tempo()
+    if kind == "used-vs-fresh":
+        got = used_vs_fresh(only=payload.get("key"))
+        return got[0][1] if got else None
     if kind == "returned":
         return oracle_return(payload["func"])
     if kind == "pt":
@@ -2537,4 +2608,8 @@ def run(tier, seed, replay):
     except Exception:       # noqa: BLE001  (the code under test misbehaves in an unforeseen way)
         import traceback
         res.oblige("correspondence run", False, traceback.format_exc()[-1500:])
+    # always run: used-vs-fresh histories on objects without a generated memo table
+    for key, payload in used_vs_fresh():
+        res.fail(key, payload)
+    res.count("used-vs-fresh histories")
     return fw.finish(res, search)
